@@ -203,4 +203,21 @@ CHECKS["C05"] = {
     ],
 }
 
+CHECKS["C11"] = {
+    "pkg": "./checks/c11",
+    "level": "exploration",
+    "rule": "generated chain histories weighted to votes, re-votes, candidate register / top-up / unregister and transfers with amounts aimed at multiples of 200 LEMO (the fee decides the side of the boundary), boxes and gas-payer "
+            "transactions, several operations on one voter per block; tally: 2..6 blocks; terms: 8-block terms with rewards and deposit refunds, 9..14 blocks. After every block, from that block's account state over every known address: "
+            "each registered candidate's votes == floor(deposit/100 LEMO) + sum over accounts voting for it of floor(balance/200 LEMO); unregistered => 0; never negative. "
+            "non-trivial = a block in which a voter votes and is touched by another transaction; distinct by history digest.",
+    "level_text": "Invariant recomputed from scratch (independent of the incremental bookkeeping in the code) after every generated block; exploration bounded by grammar and history length.",
+    "level_note": "Trusted: the address universe contains every voter (all transaction parties and logged addresses); deposits are read from the candidate profile.",
+    "technique": "rapid-generated histories checked against a from-scratch recomputation of the tally",
+    "assumptions": ["accounts outside the address universe hold no votes"],
+    "units": [
+        {"name": "tally", "test": "TestC11Tally", "quick": {"checks": 300, "shards": 4, "timeout": 900}, "thorough": {"checks": 4000, "shards": 12, "timeout": 3400}},
+        {"name": "terms", "test": "TestC11Terms", "quick": {"checks": 60, "shards": 4, "timeout": 900}, "thorough": {"checks": 800, "shards": 12, "timeout": 3400}},
+    ],
+}
+
 NOT_APPLICABLE = {}
